@@ -1010,7 +1010,7 @@ def _solve_one(args):
 _VCS: List[VC] = []
 
 
-CROSSCHECK = False   # set by smt_props.run_functions for the thorough tier
+CROSSCHECK = True   # proved contracts are also evaluated at run time on the corpus (bounded cross-check)
 
 
 def verify_function(qual: str, prefix: str, timeout_ms: int = 10000):
@@ -1099,7 +1099,10 @@ def verify_function(qual: str, prefix: str, timeout_ms: int = 10000):
                            "\n".join(g["details"]) or f"{g['n']} path(s): unsat",
                            functions=[qual], sample=f"{g['n']} path VC(s) of {qual}", bounded=name in bounded_names))
         eng.solver_time += g["t"]
-    if CROSSCHECK and con.file is not None and con.body_slice is None and all(o.status == core.DISCHARGED for o in obs):
+    has_assumed_callee = any((CONTRACTS.get(c) is not None and CONTRACTS[c].trusted and
+                              c.split("#")[0].split(".")[0] in ("CParser", "CLexer", "_TokenStream", "CGenerator")) for c in eng.callees)
+    if (CROSSCHECK == "all" or (CROSSCHECK and has_assumed_callee)) and con.file is not None and con.body_slice is None \
+            and all(o.status == core.DISCHARGED for o in obs):
         # thorough tier: CPython cross-check of the encoding -- the proved contract is also evaluated at run time on the real
         # function over the corpus (bounded); a clause that is proved but false at run time means the ENCODING is wrong
         try:
@@ -1107,9 +1110,11 @@ def verify_function(qual: str, prefix: str, timeout_ms: int = 10000):
             rt = rtcheck.runtime_check(con, qual, prefix, "cross-check of a proved contract")
             for o in rt:
                 if o.status == core.REFUTED:
+                    # proved modularly (callees by contract) and yet false on a concrete call of the real code: a callee under an
+                    # ASSUMED contract does not keep it (or the encoding is wrong) -- the concrete call decides
                     o.name = o.name.replace("/runtime-contract/", "/runtime-crosscheck/")
-                    o.status = core.UNDECIDED
-                    o.detail = "PROVED BY THE SMT ENGINE BUT FALSE AT RUN TIME (engine or contract-evaluator defect, not a verdict on the code):\n" + o.detail
+                    o.detail = ("the clause is discharged by the SMT engine relative to the callee contracts, but it is FALSE on a concrete call of the real "
+                                "code (an assumed callee contract is broken, or the encoding is wrong):\n" + o.detail)
                     obs.append(o)
                 elif o.status == core.DISCHARGED:
                     o.name = f"{prefix}/{qual}/runtime-crosscheck"
